@@ -145,7 +145,7 @@ def check_property(pid, tier, seed):
         nat = NATIVES.get(q)
         if nat is None or nat.gen is None:
             continue
-        limit = 40 if tier == "quick" else 600
+        limit = getattr(prop, "NATIVE_LIMIT_S", {}).get(tier) or (40 if tier == "quick" else 600)
         res = native_batch(q, n_cases, seed, limit, case_timeout=getattr(prop, "CASE_TIMEOUT", 20), known=known)
         entry = {"function": q, "bounded": True, "bound": nat.bound or f"{n_cases} generated inputs (seed {seed})",
                  "evaluations": res.get("evaluations", 0), "distinct": res.get("distinct", 0), "failures": len(res.get("failures", [])), "samples": res.get("samples", [])[:2]}
